@@ -3,10 +3,22 @@ package main
 // R2 — LOCK (DESIGN §3 R2): must-held lockset over each function's CFG.
 //  L1  guarded-by: accesses to the listed fields happen with the owning mutex held
 //      (read mode suffices for reads); fields of the guarded structs that are not listed as
-//      guarded or immutable are reported when touched on the request path
+//      guarded or immutable are reported when touched on the request path.
+//      The lockset a function starts with is the meet of the locksets at all its call sites
+//      (helpers documented "caller holds the lock", closures handed to a locking wrapper,
+//      closures called or deferred in place). A guarded map is followed after the load: handing
+//      it to a callee that writes it (or has no body) needs the write lock; returning, storing,
+//      capturing it or handing it to a goroutine lets it escape the critical section. Copying
+//      the whole struct by value shares the maps under a different mutex. Fields listed as
+//      immutable-after-construction are checked not to be stored into an object the storing
+//      function did not allocate (immutableWriters lists the builder exceptions).
 //  L2  pairing: Unlock/RUnlock only where the lock is must-held in the matching mode;
-//      every lock taken is released on every path (directly or by a deferred unlock);
+//      every lock taken is released in the matching mode on every path (directly, by a deferred
+//      unlock, or by a deferred closure that unlocks); a deferred unlock must find the lock
+//      held in its mode at every exit it runs on (no double unlock);
 //      TryLock counts as held only on the true branch of its result
+//  L3  no re-acquisition: neither directly nor through a (static) callee is a mutex taken that
+//      the goroutine already holds (sync mutexes are not reentrant)
 
 import (
 	"fmt"
@@ -33,6 +45,9 @@ func (s lockState) clone() lockState {
 	return o
 }
 
+// meet: a lock held in different modes on two joining paths is held, but in no known mode
+// ("M"): enough for a read of a guarded field, not enough to justify either Unlock or RUnlock
+// (fourth audit, a5: `meet(W,R)="R"` used to justify a trailing RUnlock after an upgrade).
 func meet(a, b lockState) lockState {
 	o := lockState{}
 	for k, v := range a {
@@ -40,7 +55,7 @@ func meet(a, b lockState) lockState {
 			if v == w {
 				o[k] = v
 			} else {
-				o[k] = "R" // held at least in read mode
+				o[k] = "M"
 			}
 		}
 	}
@@ -110,20 +125,124 @@ func canonBase(v ssa.Value) ssa.Value {
 	return v
 }
 
+// paramBase: the representative (in canonBase's sense) of parameter i inside fn — the
+// parameter itself, or the cell it is spilled to when a closure captures it.
+func paramBase(fn *ssa.Function, i int) ssa.Value {
+	if i < 0 || i >= len(fn.Params) {
+		return nil
+	}
+	p := fn.Params[i]
+	if p.Referrers() != nil {
+		for _, ref := range *p.Referrers() {
+			if st, ok := ref.(*ssa.Store); ok && st.Val == ssa.Value(p) {
+				if al, isAl := st.Addr.(*ssa.Alloc); isAl {
+					return al
+				}
+			}
+		}
+	}
+	return p
+}
+
+// paramIndexOfBase is the inverse of paramBase; -1 when base is not a parameter of fn.
+func paramIndexOfBase(fn *ssa.Function, base ssa.Value) int {
+	for i := range fn.Params {
+		if paramBase(fn, i) == base || ssa.Value(fn.Params[i]) == base {
+			return i
+		}
+	}
+	return -1
+}
+
+func unlockMode(kind string) string {
+	if kind == "RUnlock" {
+		return "R"
+	}
+	return "W"
+}
+
+// closureReleases: the unlock operations a `defer func(){ … }()` performs on every path
+// through the closure, expressed in the terms of the function that registers the defer
+// (captured variables are translated through the closure's bindings).
+func closureReleases(d *ssa.Defer) []lockOp {
+	mc, ok := d.Call.Value.(*ssa.MakeClosure)
+	if !ok {
+		return nil
+	}
+	g, ok := mc.Fn.(*ssa.Function)
+	if !ok || len(g.Blocks) == 0 {
+		return nil
+	}
+	var out []lockOp
+	seen := map[lockOp]bool{}
+	for _, ins := range allInstrs(g) {
+		op, ok := lockOpOf(ins)
+		if !ok || (op.kind != "Unlock" && op.kind != "RUnlock") {
+			continue
+		}
+		if _, isCall := ins.(*ssa.Call); !isCall {
+			continue
+		}
+		fv, isFV := op.id.base.(*ssa.FreeVar)
+		if !isFV {
+			continue
+		}
+		idx := -1
+		for j, f := range g.FreeVars {
+			if f == fv {
+				idx = j
+			}
+		}
+		if idx < 0 || idx >= len(mc.Bindings) {
+			continue
+		}
+		want := op
+		all, _ := mustPass(g.Blocks[0], 0, func(i ssa.Instruction) bool {
+			o2, ok := lockOpOf(i)
+			_, isCall := i.(*ssa.Call)
+			return ok && isCall && o2 == want
+		})
+		if !all {
+			continue
+		}
+		t := lockOp{kind: op.kind, id: lockID{base: mc.Bindings[idx], field: op.id.field}}
+		if !seen[t] {
+			seen[t] = true
+			out = append(out, t)
+		}
+	}
+	return out
+}
+
+// deferredUnlocks: the releases a defer statement registers (a direct `defer mu.Unlock()` or
+// a deferred closure that unlocks on all its paths).
+func deferredUnlocks(ins ssa.Instruction) []lockOp {
+	d, ok := ins.(*ssa.Defer)
+	if !ok {
+		return nil
+	}
+	if op, ok := lockOpOf(d); ok {
+		if op.kind == "Unlock" || op.kind == "RUnlock" {
+			return []lockOp{op}
+		}
+		return nil
+	}
+	return closureReleases(d)
+}
+
 type lockAnalysis struct {
 	fn       *ssa.Function
-	in       map[*ssa.BasicBlock]lockState
+	entry    lockState
 	deferred map[lockID]bool // unlock registered with defer somewhere
 	// per instruction state before it
 	before map[ssa.Instruction]lockState
 }
 
-// analyseLocks runs the must-held dataflow.
-func analyseLocks(fn *ssa.Function) *lockAnalysis {
-	la := &lockAnalysis{fn: fn, in: map[*ssa.BasicBlock]lockState{}, deferred: map[lockID]bool{}, before: map[ssa.Instruction]lockState{}}
-	if len(fn.Blocks) == 0 {
-		return la
-	}
+// lockFlow runs the must-held dataflow from (start,startIdx) with the given initial state and
+// returns the state before every instruction reachable from there (meet over the paths that
+// begin at the start point only).
+func lockFlow(fn *ssa.Function, start *ssa.BasicBlock, startIdx int, init lockState) map[ssa.Instruction]lockState {
+	before := map[ssa.Instruction]lockState{}
 	// TryLock results: value → lock id
 	try := map[ssa.Value]lockOp{}
 	for _, ins := range allInstrs(fn) {
@@ -133,20 +252,22 @@ func analyseLocks(fn *ssa.Function) *lockAnalysis {
 			}
 		}
 	}
-	transfer := func(b *ssa.BasicBlock, st lockState, record bool) lockState {
+	transfer := func(b *ssa.BasicBlock, from int, st lockState, record bool) lockState {
 		st = st.clone()
-		for _, ins := range b.Instrs {
+		for i := from; i < len(b.Instrs); i++ {
+			ins := b.Instrs[i]
 			if record {
-				la.before[ins] = st.clone()
+				if cur, ok := before[ins]; ok {
+					before[ins] = meet(cur, st)
+				} else {
+					before[ins] = st.clone()
+				}
 			}
 			op, ok := lockOpOf(ins)
 			if !ok {
 				continue
 			}
 			if _, isDefer := ins.(*ssa.Defer); isDefer {
-				if op.kind == "Unlock" || op.kind == "RUnlock" {
-					la.deferred[op.id] = true
-				}
 				continue
 			}
 			if _, isGo := ins.(*ssa.Go); isGo {
@@ -163,19 +284,9 @@ func analyseLocks(fn *ssa.Function) *lockAnalysis {
 		}
 		return st
 	}
-	out := map[*ssa.BasicBlock]lockState{}
-	la.in[fn.Blocks[0]] = lockState{}
-	work := []*ssa.BasicBlock{fn.Blocks[0]}
-	visited := map[*ssa.BasicBlock]bool{}
-	for len(work) > 0 {
-		b := work[0]
-		work = work[1:]
-		st := transfer(b, la.in[b], false)
-		if visited[b] && equalState(out[b], st) {
-			continue
-		}
-		visited[b] = true
-		out[b] = st
+	in := map[*ssa.BasicBlock]lockState{}
+	var work []*ssa.BasicBlock
+	push := func(b *ssa.BasicBlock, st lockState) {
 		for si, s := range b.Succs {
 			edge := st
 			// TryLock: held only on the true edge of `if trylock()`
@@ -189,26 +300,300 @@ func analyseLocks(fn *ssa.Function) *lockAnalysis {
 					}
 				}
 			}
-			if cur, ok := la.in[s]; ok {
+			if cur, ok := in[s]; ok {
 				m := meet(cur, edge)
 				if !equalState(m, cur) {
-					la.in[s] = m
-					work = append(work, s)
-				} else if !visited[s] {
+					in[s] = m
 					work = append(work, s)
 				}
 			} else {
-				la.in[s] = edge.clone()
+				in[s] = edge.clone()
 				work = append(work, s)
 			}
 		}
 	}
+	if startIdx == 0 {
+		in[start] = init.clone()
+		work = append(work, start)
+	} else {
+		push(start, transfer(start, startIdx, init, false))
+	}
+	for n := 0; len(work) > 0 && n < 100000; n++ {
+		b := work[0]
+		work = work[1:]
+		push(b, transfer(b, 0, in[b], false))
+	}
+	if startIdx != 0 {
+		transfer(start, startIdx, init, true)
+	}
 	for _, b := range fn.Blocks {
-		if st, ok := la.in[b]; ok {
-			transfer(b, st, true)
+		if st, ok := in[b]; ok {
+			transfer(b, 0, st, true)
 		}
 	}
+	return before
+}
+
+// analyseLocks runs the must-held dataflow from the function's entry.
+// analyseLocks: the analysis of a function entered with no lock held.
+func analyseLocks(fn *ssa.Function) *lockAnalysis { return analyseLocksFrom(fn, lockState{}) }
+
+func analyseLocksFrom(fn *ssa.Function, entry lockState) *lockAnalysis {
+	la := &lockAnalysis{fn: fn, entry: entry, deferred: map[lockID]bool{}, before: map[ssa.Instruction]lockState{}}
+	if len(fn.Blocks) == 0 {
+		return la
+	}
+	if entry == nil {
+		entry = lockState{}
+	}
+	for _, ins := range allInstrs(fn) {
+		for _, op := range deferredUnlocks(ins) {
+			la.deferred[op.id] = true
+		}
+	}
+	la.before = lockFlow(fn, fn.Blocks[0], 0, entry)
 	return la
+}
+
+// atExits: the lock state in which the calls registered by the defer statement d run — the
+// meet, over every exit of the function reachable from d, of the state before its deferred
+// calls start.
+func (la *lockAnalysis) atExits(d ssa.Instruction) (lockState, []ssa.Instruction) {
+	flow := lockFlow(la.fn, d.Block(), instrIdx(d)+1, la.before[d])
+	var st lockState
+	var exits []ssa.Instruction
+	for _, b := range la.fn.Blocks {
+		for _, ins := range b.Instrs {
+			if _, ok := ins.(*ssa.RunDefers); !ok {
+				continue
+			}
+			s, reached := flow[ins]
+			if !reached {
+				continue
+			}
+			exits = append(exits, ins)
+			if st == nil {
+				st = s.clone()
+			} else {
+				st = meet(st, s)
+			}
+		}
+	}
+	if st == nil {
+		st = lockState{}
+	}
+	return st, exits
+}
+
+// lockCtx memoises the per-function analyses and computes the lock state a function starts
+// in: the meet of the states of all its call sites (caller-holds-lock helpers, closures
+// handed to a locking wrapper, deferred closures).
+type lockCtx struct {
+	r      *Run
+	an     map[*ssa.Function]*lockAnalysis
+	inprog map[*ssa.Function]bool
+}
+
+func newLockCtx(r *Run) *lockCtx {
+	return &lockCtx{r: r, an: map[*ssa.Function]*lockAnalysis{}, inprog: map[*ssa.Function]bool{}}
+}
+
+func (lc *lockCtx) analysis(fn *ssa.Function) *lockAnalysis {
+	if la, ok := lc.an[fn]; ok {
+		return la
+	}
+	if lc.inprog[fn] {
+		// recursion: nothing is assumed about the entry state
+		return analyseLocks(fn)
+	}
+	lc.inprog[fn] = true
+	la := analyseLocksFrom(fn, lc.entryState(fn))
+	delete(lc.inprog, fn)
+	lc.an[fn] = la
+	return la
+}
+
+// closureSites: the MakeClosure instructions creating fn in its parent.
+func closureSites(fn *ssa.Function) []*ssa.MakeClosure {
+	var out []*ssa.MakeClosure
+	if fn.Parent() == nil {
+		return nil
+	}
+	for _, ins := range allInstrs(fn.Parent()) {
+		if mc, ok := ins.(*ssa.MakeClosure); ok && mc.Fn == ssa.Value(fn) {
+			out = append(out, mc)
+		}
+	}
+	return out
+}
+
+// entryState: which locks are certainly held whenever fn starts, in fn's own terms.
+func (lc *lockCtx) entryState(fn *ssa.Function) lockState {
+	cg := lc.r.P.CG
+	edges := cg.In[origin(fn)]
+	if len(edges) == 0 || (fn.Parent() == nil && isExported(fn)) {
+		return lockState{}
+	}
+	var acc lockState
+	add := func(s lockState) {
+		if acc == nil {
+			acc = s.clone()
+		} else {
+			acc = meet(acc, s)
+		}
+	}
+	for _, e := range edges {
+		if len(acc) == 0 && acc != nil {
+			break
+		}
+		if e.Kind == "hoarg" {
+			// "called on behalf of the site that passes the function": the real call is the
+			// `param` edge inside the higher-order callee, judged below
+			continue
+		}
+		if _, isGo := e.Site.(*ssa.Go); isGo || e.Kind == "extarg" || e.Kind == "invoke" || e.Caller == nil {
+			return lockState{}
+		}
+		cla := lc.analysis(e.Caller)
+		var at lockState
+		if _, isDefer := e.Site.(*ssa.Defer); isDefer {
+			at, _ = cla.atExits(e.Site)
+		} else {
+			at = cla.before[e.Site]
+		}
+		tr := lockState{}
+		args := e.Site.Common().Args
+		switch {
+		case fn.Parent() == nil:
+			if e.Kind != "static" || e.Site.Common().StaticCallee() == nil {
+				return lockState{}
+			}
+			for id, mode := range at {
+				for i, a := range args {
+					if canonBase(a) == id.base {
+						if pb := paramBase(fn, i); pb != nil {
+							tr[lockID{base: pb, field: id.field}] = mode
+						}
+					}
+				}
+			}
+		case e.Caller == fn.Parent():
+			// the closure runs in the function that creates it
+			sites := closureSites(fn)
+			if len(sites) != 1 {
+				return lockState{}
+			}
+			for id, mode := range at {
+				for j, b := range sites[0].Bindings {
+					if b == id.base && j < len(fn.FreeVars) {
+						tr[lockID{base: fn.FreeVars[j], field: id.field}] = mode
+					}
+				}
+			}
+		default:
+			// the closure is handed to e.Caller (a wrapper) which calls it: translate the
+			// wrapper's parameters to the arguments at the sites that pass the closure,
+			// then to the captured variables
+			h := e.Caller
+			sites := closureSites(fn)
+			if len(sites) != 1 {
+				return lockState{}
+			}
+			mc := sites[0]
+			var passing []ssa.CallInstruction
+			if mc.Referrers() != nil {
+				for _, ref := range *mc.Referrers() {
+					if _, isDbg := ref.(*ssa.DebugRef); isDbg {
+						continue
+					}
+					ci, isCall := ref.(ssa.CallInstruction)
+					if !isCall || ci.Common().StaticCallee() == nil || origin(ci.Common().StaticCallee()) != origin(h) {
+						return lockState{}
+					}
+					if _, isGo := ci.(*ssa.Go); isGo {
+						return lockState{}
+					}
+					passing = append(passing, ci)
+				}
+			}
+			if len(passing) == 0 {
+				return lockState{}
+			}
+			first := true
+			for _, ci := range passing {
+				one := lockState{}
+				for id, mode := range at {
+					k := paramIndexOfBase(h, id.base)
+					if k < 0 || k >= len(ci.Common().Args) {
+						continue
+					}
+					x := canonBase(ci.Common().Args[k])
+					for j, b := range mc.Bindings {
+						if b == x && j < len(fn.FreeVars) {
+							one[lockID{base: fn.FreeVars[j], field: id.field}] = mode
+						}
+					}
+				}
+				if first {
+					tr, first = one, false
+				} else {
+					tr = meet(tr, one)
+				}
+			}
+		}
+		add(tr)
+	}
+	if acc == nil {
+		acc = lockState{}
+	}
+	return acc
+}
+
+// lockAcq: fn (or a function it calls) takes the mutex field `field` of its parameter `param`.
+type lockAcq struct {
+	param, field int
+	kind         string
+	via          string
+}
+
+// acquires summarises the locks a function takes on objects it is handed, following static
+// calls (not goroutines).
+func (lc *lockCtx) acquires(fn *ssa.Function, seen map[*ssa.Function]bool) []lockAcq {
+	if fn == nil || len(fn.Blocks) == 0 || seen[fn] || len(seen) > 200 {
+		return nil
+	}
+	seen[fn] = true
+	var out []lockAcq
+	for _, ins := range allInstrs(fn) {
+		if _, isGo := ins.(*ssa.Go); isGo {
+			continue
+		}
+		if op, ok := lockOpOf(ins); ok {
+			if _, isCall := ins.(*ssa.Call); isCall && (op.kind == "Lock" || op.kind == "RLock") {
+				if k := paramIndexOfBase(fn, op.id.base); k >= 0 {
+					out = append(out, lockAcq{param: k, field: op.id.field, kind: op.kind, via: fnName(fn)})
+				}
+			}
+			continue
+		}
+		ci, ok := ins.(ssa.CallInstruction)
+		if !ok {
+			continue
+		}
+		callee := ci.Common().StaticCallee()
+		if callee == nil || len(callee.Blocks) == 0 {
+			continue
+		}
+		for _, a := range lc.acquires(callee, seen) {
+			if a.param >= len(ci.Common().Args) {
+				continue
+			}
+			if k := paramIndexOfBase(fn, canonBase(ci.Common().Args[a.param])); k >= 0 {
+				out = append(out, lockAcq{param: k, field: a.field, kind: a.kind, via: a.via})
+			}
+		}
+	}
+	return out
 }
 
 // guardedFields: struct type → field → mutex field name; immutable: fields written only at
@@ -221,7 +606,7 @@ var guardedFields = map[string]map[string]string{
 
 var immutableFields = map[string]map[string]string{
 	plannerPkg + ".CachedPlanner": {
-		"TTL":      "set by NewCachedPlanner only",
+		"TTL":      "set by NewCachedPlanner only (checked: R2.L1 reports any store into a planner the storing function did not allocate)",
 		"executor": "set by NewCachedPlanner / WithPlannerExecutor before the planner is handed to the gateway (a usage convention of the exported builder: calling it while requests run would race with Plan)",
 		"RWMutex":  "the guard itself",
 	},
@@ -270,13 +655,92 @@ func isMutexType(t types.Type) bool {
 	return n == "sync.Mutex" || n == "sync.RWMutex"
 }
 
+// immutableWriters: functions allowed to store into an immutable-after-construction field of
+// an object they did not allocate (builder methods documented to run before sharing).
+var immutableWriters = map[string]map[string]string{
+	plannerPkg + ".CachedPlanner.executor": {
+		"planner.(*CachedPlanner).WithPlannerExecutor": "exported builder, called before the planner is handed to the gateway (usage convention)",
+	},
+}
+
+// mapReaders: functions without a body in the module that only read the map they are given
+// and do not keep it (anything else without a body is assumed to write it).
+var mapReaders = map[string]string{
+	"maps.Clone":                   "copies the entries into a new map",
+	"maps.Equal":                   "compares entries",
+	"golang.org/x/exp/maps.Keys":   "copies the keys into a new slice",
+	"golang.org/x/exp/maps.Values": "copies the values into a new slice",
+	"golang.org/x/exp/maps.Clone":  "copies the entries into a new map",
+	"github.com/samber/lo.Keys":    "copies the keys into a new slice",
+	"github.com/samber/lo.Values":  "copies the values into a new slice",
+}
+
+func isAtomicScalar(t types.Type) bool {
+	switch namedOf(t) {
+	case "sync/atomic.Int32", "sync/atomic.Int64", "sync/atomic.Uint32", "sync/atomic.Uint64", "sync/atomic.Uintptr", "sync/atomic.Bool":
+		if _, isPtr := t.Underlying().(*types.Pointer); !isPtr {
+			return true
+		}
+	}
+	return false
+}
+
+// mapParamUse summarises what a callee does with a map it is handed: writes it, lets it
+// escape (returns, stores, captures, passes to unknown code), or only reads it.
+func mapParamUse(v ssa.Value, depth int, seen map[ssa.Value]bool) (writes, escapes bool) {
+	if v.Referrers() == nil || seen[v] {
+		return false, false
+	}
+	seen[v] = true
+	if depth > 4 {
+		return true, true
+	}
+	for _, ref := range *v.Referrers() {
+		switch y := ref.(type) {
+		case *ssa.DebugRef, *ssa.Lookup, *ssa.Range:
+		case *ssa.MapUpdate:
+			if y.Map == v {
+				writes = true
+			} else {
+				escapes = true
+			}
+		case *ssa.BinOp: // comparison with nil
+		case *ssa.ChangeType:
+			w, e := mapParamUse(y, depth, seen)
+			writes, escapes = writes || w, escapes || e
+		case *ssa.Call:
+			if b, isB := y.Call.Value.(*ssa.Builtin); isB {
+				if b.Name() == "delete" || b.Name() == "clear" {
+					writes = true
+				}
+				continue
+			}
+			callee := y.Call.StaticCallee()
+			if callee == nil || len(callee.Blocks) == 0 || y.Call.IsInvoke() {
+				return true, true
+			}
+			for i, a := range y.Call.Args {
+				if a == v && i < len(callee.Params) {
+					w, e := mapParamUse(callee.Params[i], depth+1, seen)
+					writes, escapes = writes || w, escapes || e
+				}
+			}
+		default:
+			escapes = true
+		}
+	}
+	return
+}
+
 func ruleLocks(structs ...string) ruleFn {
 	want := map[string]bool{}
 	for _, s := range structs {
 		want[s] = true
 	}
 	return func(r *Run) {
-		nOps, nAcc := 0, 0
+		nOps := map[string]int{}
+		nAcc := map[string]int{} // struct.field → accesses judged
+		lc := newLockCtx(r)
 		var fns []*ssa.Function
 		fns = append(fns, r.P.Funcs...)
 		sort.Slice(fns, func(i, j int) bool { return fnName(fns[i]) < fnName(fns[j]) })
@@ -284,23 +748,42 @@ func ruleLocks(structs ...string) ruleFn {
 			// only functions that touch one of the wanted structs' locks or guarded fields
 			relevant := false
 			for _, ins := range allInstrs(fn) {
-				if op, ok := lockOpOf(ins); ok {
+				if _, ok := lockOpOf(ins); ok {
 					if fa, isFA := opFieldAddr(ins); isFA && want[structOfFieldAddr(fa)] {
 						relevant = true
 					}
-					_ = op
 				}
 				if fa, ok := ins.(*ssa.FieldAddr); ok && want[structOfFieldAddr(fa)] {
 					relevant = true
+				}
+				if u, ok := ins.(*ssa.UnOp); ok && u.Op == token.MUL && isWantedStructValue(u.Type(), want) {
+					relevant = true
+				}
+				// hands one of the structs to a callee (which may lock it)
+				if ci, ok := ins.(ssa.CallInstruction); ok && !relevant {
+					for _, a := range ci.Common().Args {
+						if want[namedOf(a.Type())] {
+							relevant = true
+						}
+					}
 				}
 			}
 			if !relevant {
 				continue
 			}
-			la := analyseLocks(fn)
+			la := lc.analysis(fn)
 			name := fnName(fn)
 			// L2 pairing
 			for _, ins := range allInstrs(fn) {
+				// releases registered by `defer func(){ mu.Unlock() }()`
+				if d, isD := ins.(*ssa.Defer); isD {
+					if _, direct := lockOpOf(d); !direct {
+						for _, op := range closureReleases(d) {
+							lc.checkDeferred(la, name, d, op, want, nOps)
+						}
+						continue
+					}
+				}
 				op, ok := lockOpOf(ins)
 				if !ok {
 					continue
@@ -309,47 +792,71 @@ func ruleLocks(structs ...string) ruleFn {
 				if !isFA || !want[structOfFieldAddr(fa)] {
 					continue
 				}
-				nOps++
+				sname := structOfFieldAddr(fa)
+				nOps[sname]++
 				site := r.P.pos(ins.Pos())
 				st := la.before[ins]
 				_, isDefer := ins.(*ssa.Defer)
 				switch op.kind {
 				case "Unlock", "RUnlock":
-					mode := "W"
-					if op.kind == "RUnlock" {
-						mode = "R"
-					}
+					mode := unlockMode(op.kind)
 					if isDefer {
-						// deferred unlock: the lock must be held where the defer is registered
-						if st[op.id] == mode {
-							r.OK("R2.L2", name, "defer "+op.kind, site, "registered while the lock is held in the matching mode")
-						} else {
-							r.Bad("R2.L2", name, "defer "+op.kind, site, "deferred "+op.kind+" is registered where the lock is not known to be held in that mode")
-						}
+						nOps[sname]--
+						lc.checkDeferred(la, name, ins, op, want, nOps)
 						continue
 					}
 					if st[op.id] == mode {
 						r.OK("R2.L2", name, op.kind, site, "the lock is held in the matching mode on every path reaching this point")
 					} else {
 						why := "the mutex is not known to be held here"
+						if st[op.id] != "" {
+							why = "the mutex is held in a different (or path-dependent) mode here"
+						}
 						if hasUncheckedTry(fn, op.id) {
 							why = "it follows a TryLock whose result is ignored: when TryLock fails, another goroutine holds the mutex and this Unlock releases *its* critical section (or crashes with `unlock of unlocked mutex`)"
 						}
 						r.Bad("R2.L2", name, op.kind, site, op.kind+" on a mutex that is not must-held in the matching mode: "+why)
 					}
 				case "Lock", "RLock":
-					// released on every path?
+					if _, isCall := ins.(*ssa.Call); isCall && st[op.id] != "" {
+						r.Bad("R2.L3", name, op.kind+" while held", site, op.kind+" on a mutex this goroutine already holds ("+st[op.id]+"): sync mutexes are not reentrant — the goroutine blocks on itself (a second RLock blocks as soon as a writer is waiting)")
+					}
+					// released on every path, in the matching mode?
+					wantRel := "Unlock"
+					if op.kind == "RLock" {
+						wantRel = "RUnlock"
+					}
 					released, bad := mustPass(ins.Block(), instrIdx(ins)+1, func(i ssa.Instruction) bool {
-						o2, ok := lockOpOf(i)
-						if !ok || o2.id != op.id {
-							return false
+						if o2, ok := lockOpOf(i); ok {
+							return o2.id == op.id && o2.kind == wantRel
 						}
-						return o2.kind == "Unlock" || o2.kind == "RUnlock"
+						for _, o2 := range deferredUnlocks(i) {
+							if o2.id == op.id && o2.kind == wantRel {
+								return true
+							}
+						}
+						return false
 					})
+					if !released {
+						// re-acquired under a pending deferred release (temporary unlock/lock
+						// inside a `Lock(); defer Unlock()` section): the defer registered on
+						// every path to this point releases it; checkDeferred verifies the mode
+						// at the exits
+						for _, i2 := range allInstrs(fn) {
+							if i2 == ins || !instrDominates(i2, ins) {
+								continue
+							}
+							for _, o2 := range deferredUnlocks(i2) {
+								if o2.id == op.id && o2.kind == wantRel {
+									released = true
+								}
+							}
+						}
+					}
 					if released {
 						r.OK("R2.L2", name, op.kind, site, "released (or its release deferred) on every path to return")
 					} else {
-						r.Bad("R2.L2", name, op.kind, site, "a path from this "+op.kind+" to the return at "+r.P.pos(bad.Pos())+" does not release the mutex: the next locker blocks forever")
+						r.Bad("R2.L2", name, op.kind, site, "a path from this "+op.kind+" to the return at "+r.P.pos(bad.Pos())+" does not release the mutex with "+wantRel+": the next locker blocks forever")
 					}
 				case "TryLock", "TryRLock":
 					v, _ := ins.(ssa.Value)
@@ -360,6 +867,58 @@ func ruleLocks(structs ...string) ruleFn {
 						r.Bad("R2.L2", name, op.kind, site, "the result of TryLock is discarded: the code continues as if it held the mutex")
 					}
 				}
+			}
+			// L3 no re-acquisition through a callee while the lock is held
+			for _, ins := range allInstrs(fn) {
+				ci, ok := ins.(ssa.CallInstruction)
+				if !ok {
+					continue
+				}
+				if _, isGo := ins.(*ssa.Go); isGo {
+					continue
+				}
+				if _, isLock := lockOpOf(ins); isLock {
+					continue
+				}
+				callee := ci.Common().StaticCallee()
+				if callee == nil || len(callee.Blocks) == 0 {
+					continue
+				}
+				st := la.before[ins]
+				if _, isDefer := ins.(*ssa.Defer); isDefer {
+					st, _ = la.atExits(ins)
+				}
+				if len(st) == 0 {
+					continue
+				}
+				reported := map[lockID]bool{}
+				for _, a := range lc.acquires(callee, map[*ssa.Function]bool{}) {
+					if a.param >= len(ci.Common().Args) {
+						continue
+					}
+					base := canonBase(ci.Common().Args[a.param])
+					if !want[namedOf(base.Type())] && !want[namedOf(derefType(base.Type()))] {
+						continue
+					}
+					id := lockID{base: base, field: a.field}
+					if st[id] == "" || reported[id] {
+						continue
+					}
+					reported[id] = true
+					r.Bad("R2.L3", name, "call "+fnName(callee)+" while holding the lock", r.P.pos(ins.Pos()), "the mutex is held ("+st[id]+") at this call and "+a.via+" takes it again ("+a.kind+"): sync mutexes are not reentrant — the goroutine locks itself out and every later request blocks behind it")
+				}
+			}
+			// L1 copies of the whole struct
+			for _, ins := range allInstrs(fn) {
+				u, ok := ins.(*ssa.UnOp)
+				if !ok || u.Op != token.MUL || !isWantedStructValue(u.Type(), want) {
+					continue
+				}
+				if al, isAl := u.X.(*ssa.Alloc); isAl && al.Parent() == fn {
+					continue // a value built in this function (composite literal)
+				}
+				sname := namedOf(u.Type())
+				r.Bad("R2.L1", name, "copy "+shortStruct(sname), r.P.pos(u.Pos()), "the lock-protected struct is copied by value: the copy gets its own (fresh or mid-state) mutex but shares the guarded maps with the original, so the two are used under different locks (and the copy itself reads the fields without the lock)")
 			}
 			// L1 guarded-by
 			for _, ins := range allInstrs(fn) {
@@ -379,97 +938,352 @@ func ruleLocks(structs ...string) ruleFn {
 				if al, isAl := fa.X.(*ssa.Alloc); isAl && al.Parent() == fn {
 					continue
 				}
-				if _, isImm := immutableFields[sname][f.Name()]; isImm {
-					continue
-				}
 				if isMutexType(f.Type()) {
 					continue // the guard itself
 				}
+				if reason, isImm := immutableFields[sname][f.Name()]; isImm {
+					// the table claims the field is not written after construction: check it
+					for _, ref := range *fa.Referrers() {
+						st, isSt := ref.(*ssa.Store)
+						if !isSt || st.Addr != ssa.Value(fa) {
+							continue
+						}
+						construct := "store " + shortStruct(sname) + "." + f.Name()
+						if why, ok := immutableWriters[sname+"."+f.Name()][name]; ok {
+							r.Tabled("R2.L1", name, construct, r.P.pos(st.Pos()), "immutableWriters", why)
+							continue
+						}
+						r.Bad("R2.L1", name, construct, r.P.pos(st.Pos()), "field "+f.Name()+" is read without the lock because it is listed as immutable after construction ("+reason+"), but it is stored here into an object this function did not allocate: concurrent requests read it while it is written (data race)")
+					}
+					continue
+				}
+				key := sname + "." + f.Name()
 				mfield, isGuarded := guardedFields[sname][f.Name()]
+				if isGuarded && isAtomicScalar(f.Type()) {
+					nAcc[key]++
+					r.OK("R2.L1", name, "access "+shortStruct(sname)+"."+f.Name(), r.P.pos(fa.Pos()), "the field's type is one of sync/atomic's scalars: every access goes through its atomic methods, no lock is needed")
+					continue
+				}
 				if !isGuarded {
 					if _, known := guardedFields[sname]; known {
 						if r.atomicOnly(sname, f.Name(), f.Type()) {
-							nAcc++
+							nAcc[key]++
 							r.OK("R2.L1", name, "access "+shortStruct(sname)+"."+f.Name(), r.P.pos(fa.Pos()), "every access in the module goes through sync/atomic (the field's address is only ever handed to sync/atomic functions, or its type is one of sync/atomic's)")
 							continue
 						}
 						if valueImmutable(f.Type()) && r.constructorOnly(sname, f.Name()) {
-							nAcc++
+							nAcc[key]++
 							r.OK("R2.L1", name, "access "+shortStruct(sname)+"."+f.Name(), r.P.pos(fa.Pos()), "a plain value (number, string, bool or function) stored only into structs the storing function has just allocated: immutable after construction")
 							continue
 						}
-						nAcc++
+						nAcc[key]++
 						r.Bad("R2.L1", name, "access "+shortStruct(sname)+"."+f.Name(), r.P.pos(fa.Pos()), "field "+f.Name()+" of a lock-protected, shared struct is neither listed as guarded nor as immutable-after-construction: shared mutable state used by concurrent requests needs a guard (if it is guarded or immutable, add it to the table with the reason)")
 					}
 					continue
 				}
 				id := lockID{base: canonBase(fa.X), field: mutexFieldIndex(fa.X.Type(), mfield)}
-				// every use of the address: loads (then uses of the loaded map), stores
-				for _, ref := range *fa.Referrers() {
-					var points []ssa.Instruction
-					write := false
-					switch x := ref.(type) {
-					case *ssa.Store:
-						if x.Addr == ssa.Value(fa) {
-							points = append(points, x)
-							write = true
-						}
-					case *ssa.UnOp:
-						points = append(points, x)
-						// uses of the loaded map value
-						for _, r2 := range *x.Referrers() {
-							switch y := r2.(type) {
-							case *ssa.MapUpdate:
-								if y.Map == ssa.Value(x) {
-									points = append(points, y)
-									write = true
-								}
-							case *ssa.Lookup, *ssa.Range:
-								points = append(points, y.(ssa.Instruction))
-							case *ssa.Call:
-								if b, isB := y.Call.Value.(*ssa.Builtin); isB && b.Name() == "delete" {
-									points = append(points, y)
-									write = true
-								} else {
-									points = append(points, y)
-								}
-							}
-						}
-					}
-					for _, p := range points {
-						nAcc++
-						st := la.before[p]
-						mode := st[id]
-						need := "R"
-						_, isMU := p.(*ssa.MapUpdate)
-						_, isSt := p.(*ssa.Store)
-						isDel := false
-						if c, ok := p.(*ssa.Call); ok {
-							if b, isB := c.Call.Value.(*ssa.Builtin); isB && b.Name() == "delete" {
-								isDel = true
-							}
-						}
-						if isMU || isSt || isDel {
-							need = "W"
-						}
-						_ = write
-						okHeld := mode == "W" || (need == "R" && mode == "R")
-						site := r.P.pos(p.Pos())
-						if site == "-" {
-							site = r.P.pos(fa.Pos())
-						}
-						construct := fmt.Sprintf("%s %s.%s", map[string]string{"R": "read", "W": "write"}[need], shortStruct(sname), f.Name())
-						if okHeld {
-							r.OK("R2.L1", name, construct, site, "the guarding "+mfield+" is held ("+mode+") on every path to this access")
-						} else {
-							r.Bad("R2.L1", name, construct, site, "access to "+f.Name()+" without holding its "+mfield+" (in "+map[string]string{"R": "read or write", "W": "write"}[need]+" mode) on every path: concurrent requests race on the map (Go aborts the process on concurrent map read/write)")
+				lc.guardedUses(la, name, fa, sname, f.Name(), mfield, id, func() { nAcc[key]++ })
+			}
+		}
+		// anti-vacuity, computed from the table: every guarded field of every wanted struct was
+		// seen and judged at least once, and a struct with lock-guarded (non-atomic) fields has
+		// at least one acquire and one release
+		var snames []string
+		for s := range want {
+			snames = append(snames, s)
+		}
+		sort.Strings(snames)
+		for _, sname := range snames {
+			needLock := false
+			var fields []string
+			for f := range guardedFields[sname] {
+				fields = append(fields, f)
+			}
+			sort.Strings(fields)
+			for _, f := range fields {
+				r.AtLeast("R2", "guarded accesses of "+shortStruct(sname)+"."+f, nAcc[sname+"."+f], 1)
+				if t := fieldTypeOf(r.P, sname, f); t == nil || !isAtomicScalar(t) {
+					needLock = true
+				}
+			}
+			if needLock {
+				r.AtLeast("R2", "lock operations on "+shortStruct(sname), nOps[sname], 2)
+			}
+		}
+	}
+}
+
+// fieldTypeOf looks up the type of a struct field by qualified struct name.
+func fieldTypeOf(P *Prog, sname, field string) types.Type {
+	i := strings.LastIndex(sname, ".")
+	if i < 0 {
+		return nil
+	}
+	pkg := P.ByPath[sname[:i]]
+	if pkg == nil || pkg.Types == nil {
+		return nil
+	}
+	obj := pkg.Types.Scope().Lookup(sname[i+1:])
+	if obj == nil {
+		return nil
+	}
+	st, ok := obj.Type().Underlying().(*types.Struct)
+	if !ok {
+		return nil
+	}
+	for k := 0; k < st.NumFields(); k++ {
+		if st.Field(k).Name() == field {
+			return st.Field(k).Type()
+		}
+	}
+	return nil
+}
+
+func isWantedStructValue(t types.Type, want map[string]bool) bool {
+	if _, isPtr := t.Underlying().(*types.Pointer); isPtr {
+		return false
+	}
+	n, ok := t.(*types.Named)
+	if !ok {
+		return false
+	}
+	if _, isStruct := n.Underlying().(*types.Struct); !isStruct {
+		return false
+	}
+	return want[namedOf(t)]
+}
+
+// checkDeferred judges a release registered with defer: the lock must be held in the matching
+// mode where the defer is registered AND still be held in that mode at every exit the defer
+// runs on (an explicit Unlock before a return, under a pending deferred Unlock, unlocks twice).
+func (lc *lockCtx) checkDeferred(la *lockAnalysis, name string, d ssa.Instruction, op lockOp, want map[string]bool, nOps map[string]int) {
+	r := lc.r
+	sname := ""
+	if pt, ok := op.id.base.Type().Underlying().(*types.Pointer); ok {
+		sname = namedOf(pt.Elem())
+		if !want[sname] {
+			// a cell holding the pointer (captured variable)
+			sname = namedOf(derefType(pt.Elem()))
+		}
+	}
+	if !want[sname] {
+		return
+	}
+	nOps[sname]++
+	site := r.P.pos(d.Pos())
+	mode := unlockMode(op.kind)
+	st := la.before[d]
+	if st[op.id] != mode {
+		r.Bad("R2.L2", name, "defer "+op.kind, site, "deferred "+op.kind+" is registered where the lock is not known to be held in that mode")
+		return
+	}
+	flow := lockFlow(la.fn, d.Block(), instrIdx(d)+1, st)
+	ok := true
+	for _, b := range la.fn.Blocks {
+		for _, ins := range b.Instrs {
+			if _, isRD := ins.(*ssa.RunDefers); !isRD {
+				continue
+			}
+			s, reached := flow[ins]
+			if !reached || s[op.id] == mode {
+				continue
+			}
+			ok = false
+			why := "the mutex has already been released on a path to this return"
+			if s[op.id] != "" {
+				why = "the mutex is held in a different mode on a path to this return"
+			}
+			retPos := ins.Pos()
+			for k := instrIdx(ins) + 1; k < len(b.Instrs) && !retPos.IsValid(); k++ {
+				retPos = b.Instrs[k].Pos()
+			}
+			for k := instrIdx(ins) - 1; k >= 0 && !retPos.IsValid(); k-- {
+				// `return` statements of a function with defers carry no position of their own:
+				// name the last positioned statement before the exit
+				retPos = b.Instrs[k].Pos()
+			}
+			r.Bad("R2.L2", name, "defer "+op.kind, site, "the deferred "+op.kind+" runs at the return at "+r.P.pos(retPos)+" where "+why+": unlocking an unlocked mutex is a fatal error (`sync: Unlock of unlocked RWMutex`) that takes the whole process down")
+		}
+	}
+	if ok {
+		r.OK("R2.L2", name, "defer "+op.kind, site, "registered while the lock is held in the matching mode, and still held in that mode at every return it runs on")
+	}
+}
+
+// guardedUses judges every use of a guarded field reached through the field address fa:
+// stores, loads and what happens to the loaded map (lookups, updates, ranges, calls it is
+// handed to, and ways it can leave the critical section).
+func (lc *lockCtx) guardedUses(la *lockAnalysis, name string, fa *ssa.FieldAddr, sname, fname, mfield string, id lockID, count func()) {
+	r := lc.r
+	type point struct {
+		ins  ssa.Instruction
+		need string
+		what string
+	}
+	var points []point
+	escape := func(ins ssa.Instruction, how string) {
+		count()
+		site := r.P.pos(ins.Pos())
+		if site == "-" {
+			site = r.P.pos(fa.Pos())
+		}
+		r.Bad("R2.L1", name, "escape "+shortStruct(sname)+"."+fname, site, "the guarded "+fname+" "+how+": whoever receives the reference uses the map after (or without) the critical section that loaded it — the lock protects the load of the field, not the map behind it")
+	}
+	var uses func(v ssa.Value, depth int)
+	uses = func(v ssa.Value, depth int) {
+		if v.Referrers() == nil {
+			return
+		}
+		for _, r2 := range *v.Referrers() {
+			switch y := r2.(type) {
+			case *ssa.DebugRef:
+			case *ssa.MapUpdate:
+				if y.Map == v {
+					points = append(points, point{y, "W", ""})
+				} else {
+					escape(y, "is stored into another map")
+				}
+			case *ssa.Lookup:
+				points = append(points, point{y, "R", ""})
+			case *ssa.Range:
+				points = append(points, point{y, "R", ""})
+				// the iteration reads the map at every step, not only where it starts
+				if y.Referrers() != nil {
+					for _, nx := range *y.Referrers() {
+						if n, isNext := nx.(*ssa.Next); isNext {
+							points = append(points, point{n, "R", ""})
 						}
 					}
 				}
+			case *ssa.BinOp:
+				points = append(points, point{y, "R", ""})
+			case *ssa.ChangeType:
+				if depth < 4 {
+					uses(y, depth+1)
+				} else {
+					escape(y, "is converted and used in a way the rule does not follow")
+				}
+			case *ssa.Go:
+				escape(y, "is handed to a new goroutine")
+			case *ssa.Defer:
+				escape(y, "is handed to a deferred call (which runs after the function's unlocks)")
+			case *ssa.Call:
+				if b, isB := y.Call.Value.(*ssa.Builtin); isB {
+					if b.Name() == "delete" || b.Name() == "clear" {
+						points = append(points, point{y, "W", ""})
+					} else {
+						points = append(points, point{y, "R", ""})
+					}
+					continue
+				}
+				callee := y.Call.StaticCallee()
+				if reason, ok := mapReaders[calleeName(&y.Call)]; ok && !y.Call.IsInvoke() {
+					points = append(points, point{y, "R", ""})
+					_ = reason
+					continue
+				}
+				if callee == nil || len(callee.Blocks) == 0 || y.Call.IsInvoke() || !inModule(origin(callee)) {
+					// no body to look at: a function handed a map may write it
+					cn := calleeName(&y.Call)
+					if cn == "" {
+						cn = "a dynamically chosen function"
+					}
+					points = append(points, point{y, "W", "handed to " + cn + ", whose body is not analysed (it may modify the map it is given)"})
+					continue
+				}
+				writes, escapes := false, false
+				for i, a := range y.Call.Args {
+					if a == v && i < len(callee.Params) {
+						w, e := mapParamUse(callee.Params[i], 0, map[ssa.Value]bool{})
+						writes, escapes = writes || w, escapes || e
+					}
+				}
+				if escapes {
+					escape(y, "is handed to "+fnName(callee)+", which keeps or passes on the reference")
+					continue
+				}
+				if writes {
+					points = append(points, point{y, "W", "handed to " + fnName(callee) + ", which writes the map"})
+				} else {
+					points = append(points, point{y, "R", ""})
+				}
+			case *ssa.Return:
+				escape(y, "is returned to the caller")
+			case *ssa.Store:
+				// a local cell (named result, variable shared with a closure): follow its loads
+				if al, isAl := y.Addr.(*ssa.Alloc); isAl && y.Val == v && depth < 4 && al.Referrers() != nil {
+					local := true
+					for _, ar := range *al.Referrers() {
+						switch z := ar.(type) {
+						case *ssa.Store:
+							if z.Addr != ssa.Value(al) {
+								local = false
+							}
+						case *ssa.UnOp, *ssa.DebugRef:
+						default:
+							local = false
+						}
+					}
+					if local {
+						for _, ar := range *al.Referrers() {
+							if ld, isLd := ar.(*ssa.UnOp); isLd {
+								uses(ld, depth+1)
+							}
+						}
+						continue
+					}
+				}
+				escape(y, "is stored into another variable or field")
+			case *ssa.MakeClosure:
+				escape(y, "is captured by a closure")
+			default:
+				escape(r2, "is used in a way the rule does not follow ("+strings.TrimPrefix(fmt.Sprintf("%T", r2), "*ssa.")+")")
 			}
 		}
-		r.AtLeast("R2", "lock operations", nOps, 4)
-		r.AtLeast("R2", "guarded accesses", nAcc, 2)
+	}
+	for _, ref := range *fa.Referrers() {
+		switch x := ref.(type) {
+		case *ssa.DebugRef:
+		case *ssa.Store:
+			if x.Addr == ssa.Value(fa) {
+				points = append(points, point{x, "W", ""})
+			} else {
+				escape(x, "'s address is stored")
+			}
+		case *ssa.UnOp:
+			points = append(points, point{x, "R", ""})
+			if _, isMap := x.Type().Underlying().(*types.Map); isMap {
+				// the loaded value is a reference to the shared map: follow what is done with it
+				// (a loaded bool or number is a private copy)
+				uses(x, 0)
+			}
+		default:
+			escape(ref, "'s address is passed on")
+		}
+	}
+	for _, p := range points {
+		count()
+		st := la.before[p.ins]
+		mode := st[id]
+		okHeld := mode == "W" || (p.need == "R" && mode != "")
+		site := r.P.pos(p.ins.Pos())
+		if site == "-" {
+			site = r.P.pos(fa.Pos())
+		}
+		construct := fmt.Sprintf("%s %s.%s", map[string]string{"R": "read", "W": "write"}[p.need], shortStruct(sname), fname)
+		if okHeld {
+			arg := "the guarding " + mfield + " is held (" + mode + ") on every path to this access"
+			if _, fromCaller := la.entry[id]; fromCaller {
+				arg += " (every caller of this function holds it at the call)"
+			}
+			r.OK("R2.L1", name, construct, site, arg)
+		} else {
+			why := "access to " + fname + " without holding its " + mfield + " (in " + map[string]string{"R": "read or write", "W": "write"}[p.need] + " mode) on every path: concurrent requests race on the map (Go aborts the process on concurrent map read/write)"
+			if p.what != "" {
+				why = fname + " is " + p.what + "; " + why
+			}
+			r.Bad("R2.L1", name, construct, site, why)
+		}
 	}
 }
 
